@@ -1103,3 +1103,39 @@ CHECKS["C15"]["note"] = (
     'crash of reduce_affine_expression applied twice under iterative_simplification trips over its internal vectors '
     'and is reported only in DESIGN.md); scalar variables only.'
 )
+
+CHECKS["C24"]["text"] = (
+    'Five families of models are generated as text, compiled by pymoca.backends.sympy.generator.generate, the '
+    'source is compiled and executed (real runtime.OdeModel, compute_fg stubbed) and the object is compared with a '
+    'reference (own flattener + vf.ref.mast evaluator). expr: every tree with <= 3 (quick) / 4 (thorough) operator '
+    'nodes over + - * / ^, unary minus, sin/cos/tan, der(x), leaves x v p c u time 2 (state, algebraic, parameter, '
+    'constant, input, time, literal; rotating start, thorough: every start for <= 3 nodes) as right-hand side (<= 2 '
+    'nodes also as left-hand side), printed with minimal and with full parentheses. lit: every tree with <= 2 / 3 '
+    'operator nodes over + - * / ^ and unary - +, every leaf position taking each of p (real grid values), n '
+    '(integer grid values 2 3 -2 4), 2, 0.5, so that bare and signed literals are base and exponent of ^ and left / '
+    'right operand of every operator and powers of negative bases are real. names: base model (one variable per '
+    'class + component a with a.b, a.k) with every assignment of <= 2 / 3 names of a pool (dict attributes and psi, '
+    'Python builtins, their suffixed twins, a__b / a__b_ / a__k / a_b, x_, t) to distinct variables. mangle: names '
+    "= every plain or dotted spelling (nesting <= 2) that '.' -> '__' turns into a__b, a__b_, a___b, a__b__c "
+    '(thorough: + a__b__, a__b__c_) and print, t, super with one (two) underscore(s) appended, 17 / 26 names; '
+    'models with a frame and one name in every category, every pair of names (names competing for one identifier: '
+    'every pair of categories; others: one rotating pair, thorough every pair), every triple of competing names in '
+    'every triple of categories (thorough: also every other triple, rotating categories), component classes '
+    'generated as the dots require. struct: base model under every compatible set of <= 2 / 3 of 20 structural '
+    'deviations (class absent / doubled, output that is a state, der inside an expression, component with '
+    'input/output members, parameter without value / start only / negated literal, state start). Oracle: source '
+    'compiles and instantiates; every eqs entry equals lhs - rhs of a flat equation on 3 / 4 grid points (symbols, '
+    "derivatives and time substituted); x v c p u y hold exactly the flat model's states / variables (no prefix or "
+    'non-state output) / constants / parameters / inputs / outputs; distinct variables and time are distinct '
+    'symbols and distinct Python identifiers (no identifier assigned twice in the generated constructor).'
+)
+
+CHECKS["C24"]["note"] = (
+    'Scalar Real models, literal (possibly negated) declaration values, components nested <= 2 deep (with member '
+    'equations only one level), no connect; Python keywords (lambda, None, ...) and names the generated module uses '
+    'itself (sympy, mech, self, sin, OdeModel, the class name) are not in the name alphabet; lit leaves out trees '
+    'with a literal-only sub-expression that has no real finite value (2 / (2 - 2), (-2) ^ 0.5); symbols are '
+    "recognised by name with '.'/'__' identified and trailing underscores ignored (inside such a group every "
+    'assignment is tried); list order, x0/p0/c0/u0 and compute_fg (sympy.solve) are not judged; finite grid, '
+    'ill-conditioned or non-real points skipped.'
+)
